@@ -67,7 +67,10 @@ def build_cluster(cluster_spec):
             vec = {}
             cap = {}
             for t, q in w["resources"]:
-                vec[Resource(name=t)] = q
+                # `any_first`: the first instance of each type is configured as Resource(name, _id="any") (as the repository's own
+                # tests configure their workers); further instances of the type keep generated ids
+                any_id = w.get("any_first") and t not in cap
+                vec[Resource(name=t, _id="any") if any_id else Resource(name=t)] = q
                 cap[t] = cap.get(t, 0) + q
             worker = Worker(name=w["name"], resources=Resources(resource_vector=vec))
             workers.append(worker)
